@@ -8,6 +8,21 @@ ALL = [f'C{i:02d}' for i in range(1, 21)]
 
 # property -> (level text, level note, technique, design section)
 CHECKS = {
+    'C01': (
+        'Lean 4 theorems, for every commutative ring of amplitudes, every register shape (qubits and qudits), every circuit and '
+        'initial state: the array interpreter the implementation is compared with computes the ordered product of the local '
+        'operators (C01_interpreter_is_ordered_product, a refinement proof through the mixed-radix index bijection); operators on the '
+        'same axes compose to the matrix product (C01_apply_comp); operators on disjoint wires commute (C01_apply_comm: order within '
+        'a moment / prefix splitting is immaterial); application is linear in the initial state. Tie: every simulation entry point '
+        '(Circuit.unitary, final_state_vector, cirq.final_state_vector, Simulator x dtype x split_untangled_states x {simulate, '
+        'simulate_moment_steps per moment, simulate_sweep}, DensityMatrixSimulator, ClassicalStateSimulator) is run on generated '
+        'circuits x qubit orders x initial-state forms and compared with the Lean interpreter fed the operations\' matrices.',
+        'Trusted: Lean kernel; harness + driver; matrices come from cirq.unitary(op) (C03/C04 tie those to the documentation); CFloat '
+        'execution and tolerance comparison (2e-5 complex64, 1e-7 complex128); models of the in-place kernels / buffer swapping are '
+        'not yet proved equal to the matrix action (covered by T2 only).',
+        'Lean 4 proof (refinement + algebra of local operators) + differential correspondence on simulation entry points',
+        'DESIGN.md §3 C01',
+    ),
     'C05': (
         'Lean 4 theorems over all circuits / op trees / indices / five strategies / cache states: Circuit.insert conserves the '
         'multiset of operations (C05_insert_conserve) and keeps every moment on disjoint qubits (C05_insert_wf); every history '
